@@ -21,12 +21,16 @@ def spec_bytes(a, b):
     return (sum(1 for i in range(n) if a[i] != b[i]) + abs(len(a) - len(b)), max(len(a), len(b)))
 
 
+FIXED_TIME = 1500000000
+
+
 def write_tree(root, tree):
     for rel, c in tree.items():
         p = os.path.join(root, rel)
         os.makedirs(os.path.dirname(p), exist_ok=True)
         with open(p, 'wb') as f:
             f.write(c)
+        os.utime(p, (FIXED_TIME, FIXED_TIME))   # identical timestamps everywhere: a comparison that trusts size+mtime instead of reading the bytes is exposed
 
 
 def run_files(ctx, cases, d):
@@ -37,6 +41,7 @@ def run_files(ctx, cases, d):
     for (bs, s1, s2, a, b), o in zip(cases, outs):
         md, mt, msame = (int(x) for x in o.split())
         open(p1, 'wb').write(a); open(p2, 'wb').write(b)
+        os.utime(p1, (FIXED_TIME, FIXED_TIME)); os.utime(p2, (FIXED_TIME, FIXED_TIME))
         try:
             impl = tuple(rt.diff_bytes_files(p1, p2, blocksize=bs, startpos1=s1, startpos2=s2))
         except Exception as e:
@@ -242,13 +247,19 @@ def replay_case(ctx, case):
             a, b = bytes.fromhex(case['f1']), bytes.fromhex(case['f2'])
             p1, p2 = os.path.join(d, 'a'), os.path.join(d, 'b')
             open(p1, 'wb').write(a); open(p2, 'wb').write(b)
+            os.utime(p1, (FIXED_TIME, FIXED_TIME)); os.utime(p2, (FIXED_TIME, FIXED_TIME))
             try:
                 impl = tuple(rt.diff_bytes_files(p1, p2, blocksize=case['bs'], startpos1=case['st1'], startpos2=case['st2']))
             except Exception as e:
                 impl = ('EXC', repr(e))
+            try:
+                same = bool(rt.diff_count_files(p1, p2, blocksize=case['bs'], startpos1=case['st1'], startpos2=case['st2']))
+            except Exception as e:
+                same = repr(e)
             want = spec_bytes(a[case['st1']:], b[case['st2']:])
+            wsame = a[case['st1']:] == b[case['st2']:]
             m = ctx.model.run(['diff %d %d %d %s %s' % (case['bs'], case['st1'], case['st2'], hx(a), hx(b))])[0]
-            return {'holds': impl == want, 'implementation': impl, 'property_expects': want, 'model': m}
+            return {'holds': impl == want and same == wsame, 'implementation': [impl, same], 'property_expects': [want, wsame], 'model': m}
         if case['kind'] == 'trees':
             ref = {k: bytes.fromhex(v) for k, v in case['ref'].items()}
             other = {k: bytes.fromhex(v) for k, v in case['other'].items()}
